@@ -8,12 +8,16 @@ use std::path::Path;
 pub mod c07;
 #[cfg(feature = "kit-fs")]
 pub mod c10;
+#[cfg(feature = "kit-fs")]
+pub mod c18;
 
 // --- kit-wire (wirekit): C06, C16 ---------------------------------------------------------------
 // --- kit-wire2 (wirekit2): C13, C17, C19 --------------------------------------------------------
 // --- kit-sim (simkit): C01-C05, C08, C09, C11, C12, C14, C15, C18(in-Sim), C20 ------------------
 #[cfg(feature = "kit-sim")]
 pub mod c05;
+#[cfg(feature = "kit-sim")]
+pub mod c11;
 
 pub enum Action<'a> {
     Check(&'a Options),
@@ -39,11 +43,15 @@ pub fn dispatch(id: &str, a: &Action) -> i32 {
         "C07" => act::<c07::C07>(a),
         #[cfg(feature = "kit-fs")]
         "C10" => act::<c10::C10>(a),
+        #[cfg(feature = "kit-fs")]
+        "C18" => act::<c18::C18>(a),
         // (kit-wire arms)
         // (kit-wire2 arms)
         // (kit-sim arms)
         #[cfg(feature = "kit-sim")]
         "C05" => act::<c05::C05>(a),
+        #[cfg(feature = "kit-sim")]
+        "C11" => act::<c11::C11>(a),
         other => {
             eprintln!("harness error: no check registered for property {other} in this build");
             2
